@@ -2,9 +2,12 @@
 From Saito Require Import Base TxValid.
 From Coq Require Import Permutation.
 
+(* transactions that originate from users: everything the block producer does not
+   generate itself.  BlockStake and Bound (NFT) transactions are user transactions. *)
 Definition user_type (t : atx) : Prop :=
-  t_type t <> TFee /\ t_type t <> TSPV /\ t_type t <> TATR /\ t_type t <> TIssuance
-  /\ t_type t <> TStake /\ t_type t <> TBound.
+  t_type t <> TFee /\ t_type t <> TSPV /\ t_type t <> TATR /\ t_type t <> TIssuance.
+(* ... of which all but the Bound ones are subject to the ownership check *)
+Definition coin_type (t : atx) : Prop := user_type t /\ t_type t <> TBound.
 
 (* unbounded sums *)
 Definition nsum (l : list N) : N := fold_left N.add l 0.
@@ -20,6 +23,17 @@ Record SpendOK (t : atx) : Prop := {
                     nsum (map counted (t_to t)) <= nsum (map counted (t_from t))
 }.
 
+(* SpendOK without the ownership conjunct: what validation establishes for every
+   user transaction, Bound ones included *)
+Record SpendOK_but_owner (t : atx) : Prop := {
+  sb_signed : t_sig_ok t = true;
+  sb_nonempty : t_from t <> [];
+  sb_spendable : forall s, In s (t_from t) -> value_input s = true -> sl_spendable s = true;
+  sb_nodup : NoDup (value_keys t);
+  sb_no_inflation : nsum (map counted (t_from t)) < U64MAX ->
+                    nsum (map counted (t_to t)) <= nsum (map counted (t_from t))
+}.
+
 Lemma nodupb_NoDup l : nodupb l = true -> NoDup l.
 Proof.
   induction l as [|x t IH]; cbn [nodupb]; intros H; [constructor|].
@@ -30,13 +44,6 @@ Proof.
 Qed.
 
 (* saturating sums *)
-Lemma fold_sat_add_acc l a :
-  fold_left sat_add l a = N.min (fold_left N.add l a) U64MAX \/
-  (U64MAX <= a /\ fold_left sat_add l a = fold_left sat_add l a).
-Proof. left. revert a. induction l as [|x t IH]; intros a; cbn [fold_left].
-  - unfold U64MAX, two64. (* a may exceed the bound only if it started above it *)
-Abort.
-
 Lemma sat_sum_spec_gen l a : a <= U64MAX ->
   fold_left sat_add l a = N.min (fold_left N.add l a) U64MAX.
 Proof.
@@ -67,67 +74,333 @@ Proof. unfold total_in, total_out. rewrite !sat_sum_spec. lia. Qed.
 Lemma forallb_In {A} (f : A -> bool) l x : forallb f l = true -> In x l -> f x = true.
 Proof. intros H Hin. rewrite forallb_forall in H. auto. Qed.
 
-Ltac case_if H :=
-  match type of H with
-  | (if ?c then _ else _) = _ => let E := fresh "E" in destruct c eqn:E; [try discriminate H|]
-  end.
+(* ---------- inversion of the validation function ---------- *)
 
-Lemma valid_user_inv t :
-  user_type t -> tx_validate t = Valid ->
-  nodupb (value_keys t) = true /\ t_from t <> [] /\ t_sig_ok t = true /\ all_owned t = true
-  /\ (total_in t <? total_out t) = false /\ forallb slip_validate (t_from t) = true.
+Lemma tail_inv t : tail_checks t = Valid ->
+  t_to t <> [] /\ forallb slip_validate (t_from t) = true.
 Proof.
-  intros (Hfee & Hspv & Hatr & Hiss & Hstk & Hbnd) H. unfold tx_validate in H.
-  apply N.eqb_neq in Hfee, Hspv, Hatr, Hiss, Hstk, Hbnd.
-  rewrite Hfee, Hspv, Hstk, Hatr, Hiss, Hbnd in H. cbn [negb andb] in H.
-  destruct (255 <? Nlen (t_from t)); [discriminate|].
-  destruct (255 <? Nlen (t_to t)); [discriminate|].
-  destruct (nodupb (value_keys t)); cbn [negb] in H; [|discriminate].
+  unfold tail_checks. destruct (t_to t); [discriminate|].
+  destruct (forallb slip_validate (t_from t)); [|discriminate]. intros _. split; congruence.
+Qed.
+
+Lemma bound_send_idx_inv ovf t : bound_send_idx ovf t = Valid ->
+  succ_u8 ovf (sl_idx (fr t 0)) (sl_idx (fr t 1)) = Valid /\
+  succ_u8 ovf (sl_idx (fr t 1)) (sl_idx (fr t 2)) = Valid.
+Proof.
+  unfold bound_send_idx.
+  destruct (succ_u8 ovf (sl_idx (fr t 0)) (sl_idx (fr t 1))); try discriminate. auto.
+Qed.
+
+Lemma bound_checks_inv e t : bound_checks e t = Valid ->
+  tail_checks t = Valid /\
+  ((is_new_nft t = true /\ bound_create_ok t = true) \/
+   (is_new_nft t = false /\ bound_send_shape t = true /\ bound_send_idx (e_ovf e) t = Valid)).
+Proof.
+  unfold bound_checks. destruct (is_new_nft t).
+  - destruct (bound_create_ok t); [|discriminate]. intros H. split; [exact H|]. left; auto.
+  - destruct (bound_send_shape t); [|discriminate].
+    destruct (bound_send_idx (e_ovf e) t) eqn:Hi; try discriminate.
+    intros H. split; [exact H|]. right; auto.
+Qed.
+
+(* the checks every user transaction passes *)
+Lemma common_inv e t :
+  user_type t -> common_checks e t = Valid ->
+  t_from t <> [] /\ t_sig_ok t = true /\ (total_in t <? total_out t) = false
+  /\ (t_type t <> TBound -> all_owned t = true /\ tail_checks t = Valid
+                            /\ has_bound (t_from t) = false /\ has_bound (t_to t) = false)
+  /\ (t_type t = TBound -> bound_checks e t = Valid).
+Proof.
+  intros (Hfee & Hspv & Hatr & Hiss) H. unfold common_checks in H.
+  apply N.eqb_neq in Hatr, Hiss. rewrite Hatr, Hiss in H. cbn [negb andb] in H.
   destruct (t_from t) as [|s0 rest] eqn:Hfrom; [discriminate|].
   destruct (t_has_hash t); cbn [negb] in H; [|discriminate].
   destruct (t_sig_ok t); cbn [negb] in H; [|discriminate].
-  destruct (all_owned t); cbn [negb] in H; [|discriminate].
-  destruct (t_path_ok t); cbn [negb] in H; [|discriminate].
-  destruct (total_in t <? total_out t); [discriminate|].
-  destruct (has_bound (s0 :: rest) || has_bound (t_to t)); [discriminate|].
-  destruct (t_to t); [discriminate|].
-  destruct (forallb slip_validate (s0 :: rest)); [|discriminate].
-  repeat split; congruence.
+  destruct (t_type t =? TBound) eqn:Hb; cbn [negb andb] in H.
+  - destruct (t_path_ok t); cbn [negb] in H; [|discriminate].
+    destruct (total_in t <? total_out t); [discriminate|].
+    apply N.eqb_eq in Hb. split; [congruence|]. split; [reflexivity|]. split; [reflexivity|].
+    split; [intros Hn; congruence|intros _; exact H].
+  - destruct (all_owned t); cbn [negb] in H; [|discriminate].
+    destruct (t_path_ok t); cbn [negb] in H; [|discriminate].
+    destruct (total_in t <? total_out t); [discriminate|].
+    destruct (has_bound (s0 :: rest)) eqn:Hb1; [discriminate|].
+    destruct (has_bound (t_to t)) eqn:Hb2; [discriminate|]. cbn [orb] in H.
+    apply N.eqb_neq in Hb. split; [congruence|]. split; [reflexivity|]. split; [reflexivity|].
+    split; [intros _; repeat split; auto|intros Hn; congruence].
 Qed.
 
-Lemma valid_user_spendok t :
-  user_type t -> tx_validate t = Valid -> SpendOK t.
+Lemma valid_inv e t :
+  user_type t -> tx_validate e t = Valid ->
+  nodupb (value_keys t) = true /\ common_checks e t = Valid
+  /\ (t_type t = TStake ->
+      exists total, stake_outs (e_ovf e) 0 (t_to t) = SOk total
+                    /\ e_stake_req e <= total /\ stake_ins t = true).
 Proof.
-  intros Hu H. destruct (valid_user_inv t Hu H) as (Hnd & Hne & Hsig & Hown & Htot & Hsp).
-  constructor.
-  - exact Hsig.
-  - exact Hne.
-  - intros s Hin Hv. pose proof (forallb_In _ _ _ Hsp Hin) as Hs. cbn beta in Hs.
-    unfold slip_validate in Hs. unfold value_input in Hv.
-    apply andb_true_iff in Hv as [Hv _]. now rewrite Hv in Hs.
-  - intros s Hin Hv. unfold all_owned in Hown.
-    pose proof (forallb_In _ _ _ Hown Hin) as Hs. cbn beta in Hs. rewrite Hv in Hs.
-    cbn [negb orb] in Hs. now apply N.eqb_eq in Hs.
-  - now apply nodupb_NoDup.
-  - intros Hlt. apply no_inflation; assumption.
+  intros (Hfee & Hspv & Hatr & Hiss) H. unfold tx_validate in H.
+  apply N.eqb_neq in Hfee, Hspv. rewrite Hfee, Hspv in H.
+  destruct (255 <? Nlen (t_from t)); [discriminate|].
+  destruct (255 <? Nlen (t_to t)); [discriminate|].
+  destruct (nodupb (value_keys t)); cbn [negb] in H; [|discriminate].
+  destruct (t_type t =? TStake) eqn:Hs.
+  - destruct (stake_outs (e_ovf e) 0 (t_to t)) as [total| |] eqn:Ho; try discriminate.
+    destruct (total <? e_stake_req e) eqn:Hr; [discriminate|].
+    destruct (stake_ins t) eqn:Hi; cbn [negb] in H; [|discriminate].
+    repeat split; auto. intros _. exists total. repeat split; auto. lia.
+  - repeat split; auto. intros Hn. apply N.eqb_neq in Hs. congruence.
 Qed.
 
-Lemma pool_gate_types t : pool_gate t = true ->
-  t_type t <> TFee /\ t_type t <> TATR /\ t_type t <> TSPV /\ tx_validate t = Valid.
+Lemma spendable_of_tail t : tail_checks t = Valid ->
+  forall s, In s (t_from t) -> value_input s = true -> sl_spendable s = true.
+Proof.
+  intros Ht s Hin Hv. destruct (tail_inv t Ht) as [_ Hsp].
+  pose proof (forallb_In _ _ _ Hsp Hin) as Hs. cbn beta in Hs.
+  unfold slip_validate in Hs. unfold value_input in Hv.
+  apply andb_true_iff in Hv as [Hv _]. now rewrite Hv in Hs.
+Qed.
+
+Lemma owned_of_all_owned t : all_owned t = true ->
+  forall s, In s (t_from t) -> value_input s = true -> sl_pk s = signer t.
+Proof.
+  intros Hown s Hin Hv. unfold all_owned in Hown.
+  pose proof (forallb_In _ _ _ Hown Hin) as Hs. cbn beta in Hs. rewrite Hv in Hs.
+  cbn [negb orb] in Hs. now apply N.eqb_eq in Hs.
+Qed.
+
+(* every accepted user transaction, Bound ones included *)
+Lemma valid_user_but_owner e t :
+  user_type t -> tx_validate e t = Valid -> SpendOK_but_owner t.
+Proof.
+  intros Hu H. destruct (valid_inv e t Hu H) as (Hnd & Hc & _).
+  destruct (common_inv e t Hu Hc) as (Hne & Hsig & Htot & Hnb & Hb).
+  assert (Htail : tail_checks t = Valid).
+  { destruct (N.eq_dec (t_type t) TBound) as [Hty|Hty].
+    - now destruct (bound_checks_inv e t (Hb Hty)).
+    - now destruct (Hnb Hty) as (_ & Ht & _). }
+  constructor; auto.
+  - now apply spendable_of_tail.
+  - now apply nodupb_NoDup.
+  - intros Hlt. now apply no_inflation.
+Qed.
+
+Lemma spendok_of_parts t :
+  SpendOK_but_owner t -> all_owned t = true -> SpendOK t.
+Proof.
+  intros [H1 H2 H3 H4 H5] Hown. constructor; auto. now apply owned_of_all_owned.
+Qed.
+
+(* every accepted user transaction that is not Bound-typed: BlockStake included *)
+Lemma valid_user_spendok e t :
+  coin_type t -> tx_validate e t = Valid -> SpendOK t.
+Proof.
+  intros [Hu Hnb] H. apply spendok_of_parts; [now apply (valid_user_but_owner e)|].
+  destruct (valid_inv e t Hu H) as (_ & Hc & _).
+  destruct (common_inv e t Hu Hc) as (_ & _ & _ & Hx & _). now destruct (Hx Hnb).
+Qed.
+
+(* the class of transactions for which the ownership conjunct fails on the code as
+   it is: Bound-typed transactions with a value input of another key *)
+Definition Known_bound_foreign (t : atx) : Prop := t_type t = TBound /\ all_owned t = false.
+
+Lemma valid_user_spendok_guarded e t :
+  user_type t -> ~ Known_bound_foreign t -> tx_validate e t = Valid -> SpendOK t.
+Proof.
+  intros Hu Hk H. apply spendok_of_parts; [now apply (valid_user_but_owner e)|].
+  destruct (N.eq_dec (t_type t) TBound) as [Hty|Hty].
+  - destruct (all_owned t) eqn:Ho; [reflexivity|]. exfalso. apply Hk. split; auto.
+  - destruct (valid_inv e t Hu H) as (_ & Hc & _).
+    destruct (common_inv e t Hu Hc) as (_ & _ & _ & Hx & _). now destruct (Hx Hty).
+Qed.
+
+(* ---------- BlockStake ---------- *)
+
+Definition stake_amounts (l : list aslip) : list N :=
+  map sl_amount (filter (is_type SStake) l).
+
+Record StakeOK (e : env) (t : atx) : Prop := {
+  sk_out_types : forall s, In s (t_to t) -> sl_type s = SStake \/ sl_type s = SNormal;
+  sk_requirement : e_stake_req e <= nsum (stake_amounts (t_to t));
+  sk_unlocked : forall s, In s (t_from t) ->
+                  sl_unlocked s = true /\ sl_key s <> 0 /\ sl_key_amount s = sl_amount s;
+  sk_distinct : NoDup (map sl_key (t_from t))
+}.
+
+Lemma fold_add_acc l a : fold_left N.add l a = a + fold_left N.add l 0.
+Proof.
+  revert a. induction l as [|x l IH]; intros a; cbn [fold_left]; [lia|].
+  rewrite (IH (a + x)), (IH (0 + x)). lia.
+Qed.
+
+Lemma stake_outs_spec ovf l : forall acc total,
+  stake_outs ovf acc l = SOk total ->
+  (forall s, In s l -> sl_type s = SStake \/ sl_type s = SNormal)
+  /\ total <= acc + nsum (stake_amounts l).
+Proof.
+  induction l as [|s rest IH]; intros acc total H; cbn [stake_outs] in H.
+  - inversion H; subst. split; [intros ? []|]. unfold stake_amounts, nsum. cbn. lia.
+  - unfold is_type in H.
+    destruct (sl_type s =? SStake) eqn:Hs; cbn [negb andb] in H.
+    + assert (Hsum : nsum (stake_amounts (s :: rest)) = sl_amount s + nsum (stake_amounts rest)).
+      { unfold stake_amounts, nsum. cbn [filter]. unfold is_type. rewrite Hs.
+        cbn [map fold_left]. rewrite fold_add_acc. lia. }
+      destruct (two64 <=? acc + sl_amount s) eqn:Ho.
+      * destruct ovf; [discriminate|].
+        destruct (IH _ _ H) as [Hty Hle]. split.
+        -- intros x [<-|Hx]; [left; now apply N.eqb_eq|auto].
+        -- rewrite Hsum. pose proof (N.mod_le (acc + sl_amount s) two64 ltac:(unfold two64; lia)). lia.
+      * destruct (IH _ _ H) as [Hty Hle]. split.
+        -- intros x [<-|Hx]; [left; now apply N.eqb_eq|auto].
+        -- rewrite Hsum. lia.
+    + destruct (sl_type s =? SNormal) eqn:Hn; cbn [negb] in H; [|discriminate].
+      destruct (IH _ _ H) as [Hty Hle]. split.
+      * intros x [<-|Hx]; [right; now apply N.eqb_eq|auto].
+      * unfold stake_amounts in *. cbn [filter]. unfold is_type at 1. rewrite Hs. exact Hle.
+Qed.
+
+Lemma valid_stake e t :
+  t_type t = TStake -> tx_validate e t = Valid -> SpendOK t /\ StakeOK e t.
+Proof.
+  intros Hty H.
+  assert (Hu : user_type t) by (unfold user_type; rewrite Hty; repeat split; discriminate).
+  split.
+  - apply (valid_user_spendok e); [|exact H]. split; [exact Hu|]. rewrite Hty. discriminate.
+  - destruct (valid_inv e t Hu H) as (_ & _ & Hs).
+    destruct (Hs Hty) as (total & Ho & Hreq & Hin).
+    destruct (stake_outs_spec _ _ _ _ Ho) as [Htypes Hle].
+    unfold stake_ins in Hin. apply andb_true_iff in Hin as [Hall Hnd].
+    constructor.
+    + exact Htypes.
+    + lia.
+    + intros s Hs'. pose proof (forallb_In _ _ _ Hall Hs') as Hok. unfold stake_input_ok in Hok.
+      apply andb_true_iff in Hok as [Hok Ha]. apply andb_true_iff in Hok as [Hk Hu'].
+      repeat split; auto.
+      * apply negb_true_iff in Hk. now apply N.eqb_neq.
+      * now apply N.eqb_eq.
+    + now apply nodupb_NoDup.
+Qed.
+
+(* ---------- Bound (NFT) ---------- *)
+
+Lemma Nlen_1 {A} (l : list A) : Nlen l =? 1 = true -> exists x, l = [x].
+Proof.
+  unfold Nlen. intros H. apply N.eqb_eq in H.
+  destruct l as [|x [|y l]]; cbn in H; try lia. now exists x.
+Qed.
+
+(* a new NFT: the single input is a Normal slip of the signer (so the full SpendOK
+   holds), the outputs start Bound / Normal / Bound(0), and the NFT id carried by
+   the third output names the consumed output *)
+Record CreateOK (t : atx) : Prop := {
+  co_input : exists s, t_from t = [s] /\ sl_type s = SNormal
+             /\ sl_uuid_bid (tt t 2) = sl_bid s /\ sl_uuid_ord (tt t 2) = sl_ord s
+             /\ sl_uuid_idx (tt t 2) = sl_idx s;
+  co_outputs : sl_type (tt t 0) = SBound /\ sl_type (tt t 1) = SNormal
+               /\ sl_type (tt t 2) = SBound /\ sl_amount (tt t 2) = 0
+               /\ 3 <= Nlen (t_to t)
+}.
+
+Ltac split_andb H :=
+  repeat match type of H with
+  | (_ && _) = true => let H2 := fresh H in apply andb_true_iff in H as [H H2]
+  end.
+
+Lemma valid_bound_create e t :
+  t_type t = TBound -> is_new_nft t = true -> tx_validate e t = Valid ->
+  SpendOK t /\ CreateOK t.
+Proof.
+  intros Hty Hnew H.
+  assert (Hu : user_type t) by (unfold user_type; rewrite Hty; repeat split; discriminate).
+  destruct (valid_inv e t Hu H) as (_ & Hc & _).
+  destruct (common_inv e t Hu Hc) as (_ & _ & _ & _ & Hb).
+  destruct (bound_checks_inv e t (Hb Hty)) as (_ & [[_ Hok]|[Hn _]]); [|congruence].
+  unfold is_new_nft in Hnew. apply andb_true_iff in Hnew as [Hnew Hlen].
+  apply andb_true_iff in Hnew as [Hone Hnorm].
+  destruct (Nlen_1 _ Hone) as [s Hs].
+  split.
+  - apply spendok_of_parts; [now apply (valid_user_but_owner e)|].
+    unfold all_owned, signer. rewrite Hs. cbn [forallb]. rewrite N.eqb_refl.
+    now rewrite orb_true_r.
+  - unfold bound_create_ok in Hok. split_andb Hok. unfold is_type in *.
+    assert (Hfr : fr t 0 = s) by (unfold fr; now rewrite Hs).
+    rewrite Hfr in *.
+    constructor.
+    + exists s. repeat split; auto; now apply N.eqb_eq.
+    + repeat split; try now apply N.eqb_eq. now apply N.leb_le.
+Qed.
+
+(* a transfer of an existing NFT *)
+Definition next_idx (ovf : bool) (a b : N) : Prop :=
+  if ovf then b = a + 1 /\ a <> 255 else b = (a + 1) mod 256 \/ (a <> 255 /\ b = a + 1).
+
+Definition SendOK (e : env) (t : atx) : Prop :=
+  exists f0 f1 f2 frest o0 o1 o2 orest,
+      t_from t = f0 :: f1 :: f2 :: frest /\ t_to t = o0 :: o1 :: o2 :: orest
+      /\ sl_type f0 = SBound /\ sl_type f1 = SNormal /\ sl_type f2 = SBound
+      /\ sl_amount f2 = 0
+      (* the signature is checked against the key in the first Bound slip *)
+      /\ sl_pk f0 = signer t
+      (* the Normal slip moved with the NFT is the one created right after the Bound
+         slip, in the same transaction of the same block: it cannot be replaced *)
+      /\ sl_bid f1 = sl_bid f0 /\ sl_ord f1 = sl_ord f0 /\ sl_bid f2 = sl_bid f0 /\ sl_ord f2 = sl_ord f0
+      /\ succ_u8 (e_ovf e) (sl_idx f0) (sl_idx f1) = Valid
+      /\ succ_u8 (e_ovf e) (sl_idx f1) (sl_idx f2) = Valid
+      /\ (forall s, In s frest -> sl_type s = SNormal)
+      (* the two Bound slips are re-created unchanged *)
+      /\ sl_type o0 = SBound /\ sl_type o1 = SNormal /\ sl_type o2 = SBound
+      /\ sl_pk o0 = sl_pk f0 /\ sl_amount o0 = sl_amount f0
+      /\ sl_pk o2 = sl_pk f2 /\ sl_amount o2 = 0
+      /\ (forall s, In s orest -> sl_type s = SNormal).
+
+Lemma Nlen_ge3 {A} (l : list A) : Nlen l <? 3 = false -> exists a b c r, l = a :: b :: c :: r.
+Proof.
+  unfold Nlen. intros H. apply N.ltb_ge in H.
+  destruct l as [|a [|b [|c r]]]; cbn in H; try lia. now exists a, b, c, r.
+Qed.
+
+Lemma forallb_type ty l : forallb (is_type ty) l = true -> forall s, In s l -> sl_type s = ty.
+Proof. intros H s Hin. pose proof (forallb_In _ _ _ H Hin) as Hs. now apply N.eqb_eq in Hs. Qed.
+
+Lemma valid_bound_send e t :
+  t_type t = TBound -> is_new_nft t = false -> tx_validate e t = Valid ->
+  SpendOK_but_owner t /\ SendOK e t.
+Proof.
+  intros Hty Hnew H.
+  assert (Hu : user_type t) by (unfold user_type; rewrite Hty; repeat split; discriminate).
+  split; [now apply (valid_user_but_owner e)|].
+  destruct (valid_inv e t Hu H) as (_ & Hc & _).
+  destruct (common_inv e t Hu Hc) as (_ & _ & _ & _ & Hb).
+  destruct (bound_checks_inv e t (Hb Hty)) as (_ & [[Hn _]|(_ & Hsh & Hidx)]); [congruence|].
+  unfold bound_send_shape in Hsh. split_andb Hsh.
+  repeat match goal with Hx : negb _ = true |- _ => apply negb_true_iff in Hx end.
+  match goal with Hx : (Nlen (t_from t) <? 3) = false |- _ =>
+    destruct (Nlen_ge3 _ Hx) as (f0 & f1 & f2 & fr' & Hf) end.
+  match goal with Hx : (Nlen (t_to t) <? 3) = false |- _ =>
+    destruct (Nlen_ge3 _ Hx) as (o0 & o1 & o2 & or' & Ho) end.
+  destruct (bound_send_idx_inv _ _ Hidx) as [Hi1 Hi2].
+  unfold fr, tt, is_type in *. rewrite Hf, Ho in *. cbn [nth skipn] in *.
+  repeat match goal with Hx : (_ =? _) = true |- _ => apply N.eqb_eq in Hx end.
+  exists f0, f1, f2, fr', o0, o1, o2, or'. unfold signer. rewrite Hf.
+  repeat match goal with |- _ /\ _ => split end; auto; try congruence;
+    now apply forallb_type.
+Qed.
+
+(* ---------- pool and block ---------- *)
+
+Lemma pool_gate_types e t : pool_gate e t = true ->
+  t_type t <> TFee /\ t_type t <> TATR /\ t_type t <> TSPV /\ tx_validate e t = Valid.
 Proof.
   unfold pool_gate. intros H. apply andb_true_iff in H as [Ht Hv].
   apply negb_true_iff in Ht. apply orb_false_iff in Ht as [Ht Hspv].
   apply orb_false_iff in Ht as [Hfee Hatr].
   apply N.eqb_neq in Hfee, Hatr, Hspv. repeat split; auto.
-  destruct (tx_validate t); congruence.
+  destruct (tx_validate e t); congruence.
 Qed.
 
-(* the sweep *)
-Lemma sweep_all_valid seen txs t :
-  sweep seen txs = true -> In t txs -> tx_validate t = Valid.
+Lemma sweep_all_valid e seen txs t :
+  sweep e seen txs = true -> In t txs -> tx_validate e t = Valid.
 Proof.
   revert seen. induction txs as [|x rest IH]; intros seen H Hin; [contradiction|].
-  cbn [sweep] in H. destruct (tx_validate x) eqn:Hx; try discriminate.
+  cbn [sweep] in H. destruct (tx_validate e x) eqn:Hx; try discriminate.
   destruct Hin as [<-|Hin]; [exact Hx|].
   destruct (t_type x =? TFee); [eauto|].
   destruct (existsb _ (value_keys x)); [discriminate|eauto].
@@ -142,13 +415,12 @@ Proof.
   apply existsb_exists. exists k. split; [exact Hin|apply N.eqb_refl].
 Qed.
 
-Lemma sweep_nodup seen txs :
-  NoDup seen -> sweep seen txs = true ->
-  NoDup (block_keys txs ++ seen) /\ True.
+Lemma sweep_nodup e seen txs :
+  NoDup seen -> sweep e seen txs = true -> NoDup (block_keys txs ++ seen).
 Proof.
   revert seen. induction txs as [|x rest IH]; intros seen Hnd H.
-  - split; [exact Hnd|exact I].
-  - cbn [sweep] in H. destruct (tx_validate x) eqn:Hx; try discriminate.
+  - exact Hnd.
+  - cbn [sweep] in H. destruct (tx_validate e x) eqn:Hx; try discriminate.
     unfold block_keys. cbn [filter]. unfold nonfee at 1.
     destruct (t_type x =? TFee) eqn:Hfee; cbn [negb].
     + apply IH; assumption.
@@ -169,16 +441,151 @@ Proof.
         - intros Hin. apply in_app_or in Hin as [Hin|Hin]; [contradiction|].
           apply (Hdisj k); [now left|exact Hin].
         - apply IHl; [assumption|]. intros k' Hk'. apply Hdisj. now right. }
-      destruct (IH (value_keys x ++ seen) Hnd' H) as [Hres _]. split; [|exact I].
+      pose proof (IH (value_keys x ++ seen) Hnd' H) as Hres.
       cbn [flat_map]. fold (block_keys rest).
-      (* reorder: (keys x ++ block_keys rest) ++ seen  vs  block_keys rest ++ (keys x ++ seen) *)
       eapply Permutation_NoDup; [|exact Hres].
       rewrite <- !app_assoc.
       rewrite Permutation_app_swap_app. reflexivity.
 Qed.
 
-Lemma sweep_no_double_spend txs : sweep [] txs = true -> NoDup (block_keys txs).
+Lemma sweep_no_double_spend e txs : sweep e [] txs = true -> NoDup (block_keys txs).
 Proof.
-  intros H. destruct (sweep_nodup [] txs (NoDup_nil _) H) as [Hn _].
+  intros H. pose proof (sweep_nodup e [] txs (NoDup_nil _) H) as Hn.
   now rewrite app_nil_r in Hn.
 Qed.
+
+(* staking worlds: the one staking transaction of an accepted block *)
+Lemma block_stake_tx e id txs :
+  block_txs_ok e id txs = true -> e_stake_req e <> 0 -> 1 < id ->
+  (e_ovf e = true \/ stake_count txs < 256) ->
+  stake_count txs = 1 /\
+  forall t, In t txs -> t_type t = TStake -> SpendOK t /\ StakeOK e t.
+Proof.
+  intros H Hreq Hid Hovf. unfold block_txs_ok in H. apply andb_true_iff in H as [Hc Hs].
+  split.
+  - unfold stake_count_ok in Hc.
+    apply N.eqb_neq in Hreq. rewrite Hreq in Hc.
+    assert (Hid' : (id <=? 1) = false) by (apply N.leb_gt; exact Hid).
+    rewrite Hid' in Hc. cbn [orb] in Hc.
+    destruct (256 <=? stake_count txs) eqn:Hbig.
+    + apply N.leb_le in Hbig. destruct Hovf as [Ho|Hlt]; [rewrite Ho in Hc; discriminate|lia].
+    + now apply N.eqb_eq in Hc.
+  - intros t Hin Hty. apply valid_stake; [exact Hty|]. exact (sweep_all_valid e [] txs t Hs Hin).
+Qed.
+
+(* ---------- what the signature does not bind ---------- *)
+
+(* everything validation reads of the slips of a transaction that is neither
+   BlockStake nor Bound is (i) what the signature covers of each slip and (ii) for
+   the inputs: whether they are spendable and pairwise distinct.  So the verdict
+   carries over to any transaction with the same signed content whose (different)
+   inputs are spendable and distinct: the signature does not say WHICH outputs
+   are spent. *)
+Definition value_v (v : N * N * N * N) : bool :=
+  let '(_, a, _, ty) := v in (0 <? a) && negb (ty =? SBound).
+Definition counted_v (v : N * N * N * N) : N := let '(_, a, _, ty) := v in if ty =? SBound then 0 else a.
+Definition pk_v (v : N * N * N * N) : N := let '(p, _, _, _) := v in p.
+Definition ty_v (v : N * N * N * N) : N := let '(_, _, _, ty) := v in ty.
+Definition am_v (v : N * N * N * N) : N := let '(_, a, _, _) := v in a.
+
+Lemma counted_view l : map counted l = map counted_v (map signed_view l).
+Proof. rewrite map_map. apply map_ext. intros s. reflexivity. Qed.
+
+Lemma has_bound_view l : has_bound l = existsb (fun v => ty_v v =? SBound) (map signed_view l).
+Proof. unfold has_bound. induction l as [|s l IH]; cbn; [reflexivity|]. now rewrite IH. Qed.
+
+Lemma len_view l : Nlen l = Nlen (map signed_view l).
+Proof. unfold Nlen. now rewrite map_length. Qed.
+
+Lemma owned_view k l :
+  forallb (fun s => negb (value_input s) || (sl_pk s =? k)) l
+  = forallb (fun v => negb (value_v v) || (pk_v v =? k)) (map signed_view l).
+Proof. induction l as [|s l IH]; cbn [forallb map]; [reflexivity|]. now rewrite IH. Qed.
+
+Lemma signer_view t : signer t = match map signed_view (t_from t) with v0 :: _ => pk_v v0 | [] => 0 end.
+Proof. unfold signer. destruct (t_from t); reflexivity. Qed.
+
+Lemma all_owned_view t : all_owned t =
+  forallb (fun v => negb (value_v v) || (pk_v v =? match map signed_view (t_from t) with v0 :: _ => pk_v v0 | [] => 0 end))
+          (map signed_view (t_from t)).
+Proof. unfold all_owned. rewrite owned_view, signer_view. reflexivity. Qed.
+
+Lemma out_amounts_view l :
+  existsb (fun s => 0 <? sl_amount s) l = existsb (fun v => 0 <? am_v v) (map signed_view l).
+Proof. induction l as [|s l IH]; cbn; [reflexivity|]. now rewrite IH. Qed.
+
+Lemma signature_does_not_bind_inputs e t t' :
+  t_type t <> TStake -> t_type t <> TBound ->
+  signed_content t' = signed_content t ->
+  t_sig_ok t' = t_sig_ok t -> t_has_hash t' = t_has_hash t -> t_path_ok t' = t_path_ok t ->
+  nodupb (value_keys t') = true ->
+  forallb slip_validate (t_from t') = true ->
+  tx_validate e t = Valid -> tx_validate e t' = Valid.
+Proof.
+  intros Hns Hnb Hsc Hsig Hhash Hpath Hnd Hsp H.
+  unfold signed_content in Hsc. injection Hsc as Hty Hfrom Hto.
+  apply N.eqb_neq in Hns, Hnb.
+  assert (Hti : total_in t' = total_in t) by (unfold total_in; now rewrite !counted_view, Hfrom).
+  assert (Hto' : total_out t' = total_out t) by (unfold total_out; now rewrite !counted_view, Hto).
+  assert (Htf : total_fees t' = total_fees t) by (unfold total_fees; now rewrite Hti, Hto').
+  assert (Hemp : match t_from t' with [] => true | _ => false end
+                 = match t_from t with [] => true | _ => false end).
+  { destruct (t_from t'), (t_from t); cbn in Hfrom; try discriminate; reflexivity. }
+  assert (Hemp2 : forall (A : Type) (a b : A), match t_to t' with [] => a | _ => b end
+                 = match t_to t with [] => a | _ => b end).
+  { intros. destruct (t_to t'), (t_to t); cbn in Hto; try discriminate; reflexivity. }
+  unfold tx_validate in *. rewrite Hty in *. rewrite Hns in *.
+  rewrite (len_view (t_from t')), (len_view (t_to t')), Hfrom, Hto, <- !len_view.
+  destruct (255 <? Nlen (t_from t)); [discriminate|].
+  destruct (255 <? Nlen (t_to t)); [discriminate|].
+  rewrite Hnd. cbn [negb].
+  destruct (nodupb (value_keys t)); cbn [negb] in H; [|discriminate].
+  destruct (t_type t =? TFee); [reflexivity|].
+  destruct (t_type t =? TSPV).
+  { rewrite out_amounts_view, Hto, <- out_amounts_view, Htf. exact H. }
+  unfold common_checks in *. rewrite Hty, Hnb in *.
+  rewrite Hemp, Hhash, Hsig, Hpath, Hti, Hto', all_owned_view, Hfrom, <- all_owned_view.
+  rewrite !has_bound_view, Hfrom, Hto, <- !has_bound_view.
+  repeat match type of H with
+  | (if ?c then Invalid else _) = Valid => destruct c; [discriminate|]
+  end.
+  unfold tail_checks in *. rewrite Hemp2. rewrite Hsp.
+  destruct (t_to t); [discriminate|reflexivity].
+Qed.
+
+(* ---------- builders for the concrete witnesses in props/C01.v ---------- *)
+(* an unspent Normal output of [pk] at (bid, ord, idx) *)
+Definition nslip (pk amount key bid ord idx : N) : aslip :=
+  mkSlip pk amount SNormal key true bid ord idx true amount 0 0 0.
+(* a Bound slip; [sp]: present in the utxo set *)
+Definition bslip (pk amount key : N) (sp : bool) (bid ord idx : N) : aslip :=
+  mkSlip pk amount SBound key sp bid ord idx sp amount 0 0 0.
+(* an output being created *)
+Definition oslip (pk amount ty : N) : aslip := mkSlip pk amount ty 0 false 0 0 0 false amount 0 0 0.
+(* the third output of a new NFT: public key field = (block id, tx ordinal, slip index) of the input *)
+Definition uslip (pk bid ord idx : N) : aslip := mkSlip pk 0 SBound 0 false 0 0 0 false 0 bid ord idx.
+Definition env0 : env := mkEnv 0 true.
+
+(* ---------- concrete witnesses used by props/C01.v ---------- *)
+(* listed finding bound-foreign-input: the attacker (key 5) transfers an NFT of his
+   own and adds an unspent Normal output of key 6 as fourth input; the transaction
+   validates and pays the 2000 to key 5 *)
+Definition W_foreign : atx :=
+  mkTx TBound [bslip 5 1 21 true 2 3 0; nslip 5 300 22 2 3 1; bslip 77 0 0 false 2 3 2; nslip 6 2000 23 1 8 0]
+              [oslip 5 1 SBound; oslip 5 300 SNormal; oslip 77 0 SBound; oslip 5 2000 SNormal] true true true.
+(* listed finding bound-creator-reclaims: key 5 minted an NFT for key 6 (deposit 400
+   owned by 6); the first Bound slip keeps key 5 for ever, so key 5 can move the NFT
+   and the deposit whenever it likes, while key 6 cannot *)
+Definition W_reclaim : atx :=
+  mkTx TBound [bslip 5 1 21 true 2 3 0; nslip 6 400 22 2 3 1; bslip 77 0 0 false 2 3 2]
+              [oslip 5 1 SBound; oslip 5 400 SNormal; oslip 77 0 SBound] true true true.
+(* listed finding bound-fabricated-triple: no NFT at all; two zero-amount Bound slips
+   (never looked up in the ledger) invented around any output with slip_index 1..254 *)
+Definition W_fabricated : atx :=
+  mkTx TBound [bslip 5 0 31 false 2 7 0; nslip 6 2850 32 2 7 1; bslip 5 0 33 false 2 7 2]
+              [oslip 5 0 SBound; oslip 5 2850 SNormal; oslip 5 0 SBound] true true true.
+
+Definition steals (t : atx) : Prop :=
+  t_type t = TBound /\ tx_validate env0 t = Valid /\ pool_gate env0 t = true /\ sweep env0 [] [t] = true /\
+  exists s, In s (t_from t) /\ value_input s = true /\ sl_spendable s = true /\ sl_pk s <> signer t.
+
